@@ -50,9 +50,13 @@ var impure = map[string]bool{}     // lean name -> returns Res
 var needsFuel = map[string]bool{}
 var aux []string // auxiliary loop definitions for the current function
 
+// translateError aborts the translation of ONE function (recovered in main): the function is then
+// absent from the generated file and reported as failed in <out>.status.json, so only the properties
+// whose theorems mention it lose their obligation.
+type translateError struct{ msg string }
+
 func fatal(pos token.Pos, f string, a ...interface{}) {
-	fmt.Fprintf(os.Stderr, "go2lean: %s: %s\n", fset.Position(pos), fmt.Sprintf(f, a...))
-	os.Exit(2)
+	panic(translateError{fmt.Sprintf("%s: %s", fset.Position(pos), fmt.Sprintf(f, a...))})
 }
 
 var reserved = map[string]bool{"in": true, "at": true, "from": true, "end": true, "fun": true, "let": true, "do": true, "then": true, "else": true, "if": true, "open": true, "def": true, "theorem": true, "by": true, "have": true, "show": true, "max": true, "min": true, "out": true}
@@ -595,8 +599,7 @@ func translate(repo string, fs FuncSpec) string {
 	path := filepath.Join(repo, fs.File)
 	f, err := parser.ParseFile(fset, path, nil, 0)
 	if err != nil {
-		fmt.Fprintln(os.Stderr, "go2lean:", err)
-		os.Exit(2)
+		panic(translateError{err.Error()})
 	}
 	var fd *ast.FuncDecl
 	for _, d := range f.Decls {
@@ -611,8 +614,7 @@ func translate(repo string, fs FuncSpec) string {
 		}
 	}
 	if fd == nil {
-		fmt.Fprintf(os.Stderr, "go2lean: function %s.%s not found in %s\n", fs.Recv, fs.Name, fs.File)
-		os.Exit(2)
+		panic(translateError{fmt.Sprintf("function %s.%s not found in %s", fs.Recv, fs.Name, fs.File)})
 	}
 	c := &fnCtx{name: fs.Lean, ptypes: map[string]string{}, funVars: map[string]bool{}}
 	var sig []string
@@ -739,8 +741,33 @@ func main() {
 		leanName[filepath.Base(filepath.Dir(f.File))+"."+f.Name] = f.Lean
 	}
 	var defs []string
+	status := map[string]string{}
 	for _, f := range cfg.Funcs {
-		defs = append(defs, translate(os.Args[1], f))
+		func() {
+			defer func() {
+				if r := recover(); r != nil {
+					te, ok := r.(translateError)
+					if !ok {
+						panic(r)
+					}
+					status[f.Lean] = te.msg
+					fmt.Fprintf(os.Stderr, "go2lean: %s NOT translated: %s\n", f.Lean, te.msg)
+					// callers of this function must fail as well, not reference a missing definition
+					for k, v := range leanName {
+						if v == f.Lean {
+							delete(leanName, k)
+						}
+					}
+					defs = append(defs, fmt.Sprintf("-- %s: not translated (%s)\n", f.Lean, te.msg))
+				}
+			}()
+			d := translate(os.Args[1], f)
+			status[f.Lean] = "ok"
+			defs = append(defs, d)
+		}()
+	}
+	if sj, err := json.MarshalIndent(status, "", " "); err == nil {
+		os.WriteFile(os.Args[3]+".status.json", sj, 0o644)
 	}
 	var fields []string
 	for f := range specFields {
